@@ -6,6 +6,10 @@ ALL = ["C%02d" % i for i in range(1, 21)]
 
 CODEC_NOTE = "Trusted: the reflection bridge (identity-checked on every case), the schema universe and alphabets, the reference codecs, the Go toolchain. Schemas enter as the generator's intermediate JSON (the Java parser is absent). Small-scope bounds: depth <= 2 (3 on spines), <= 5 entries, strings <= 2 chars over the metacharacter set + tokens."
 CHECKS = {
+ "C03": dict(engine="enumx", category="model_checking", design="§3 C03, Appendix B",
+   technique="bounded-exhaustive differential check of the real codecs against independent reference JSON/ROR2 codecs, both directions, incl. enumerated document variants",
+   text="Over the C01 case space: every library encoding (5 formats) must parse under the strict reference parser for its format/escaping context and denote the same abstract value; the reference encoding of every value, and for the reduced alphabets every enumerated variant (all key permutations of <=4 keys, unknown fields of 6 shapes at 3 positions, whitespace, alternative JSON escapes, lower-case / superfluous percent-escapes, + for space), must be accepted by the library and yield the value.",
+   note=CODEC_NOTE + " The reference codecs are my reading of the Rest.li 2.0 rules (keys escaped like strings; bytes as code points <= U+00FF; null union = JSON null). Envelopes are checked at wire level (C02/C08/C16)."),
  "C01": dict(engine="enumx", category="model_checking", design="§3 C01",
    technique="bounded-exhaustive enumeration of (schema, value with <=1 deviation [<=2 reduced in thorough], wire format) executed on bindings generated at check time by the current generator; oracle = self-inverse + the type's own Equals + structural equality",
    text="Every wrapper record of the schema universe (every leaf/array/map field type x required/optional/defaulted, include chains, unions; 85 records quick, ~250 thorough) x every single-deviation value over full per-type alphabets (all 256 bytes, every metacharacter pair, float/int extremes) x 5 wire formats is round-tripped through the real generated code of both module generations and compared after default filling.",
